@@ -824,8 +824,12 @@ class Miller(Vector3d):
                 a = data[i]
                 order = np.lexsort(a.T)  # Sort by column 1, 2, then 3
                 data_sorted[i] = a[order]
-            _, idx = np.unique(data_sorted, return_index=True, axis=0)
-            v = v[idx[::-1]]
+            _, idx_sym = np.unique(data_sorted, return_index=True, axis=0)
+            idx_sym = idx_sym[::-1]
+            v = v[idx_sym]
+            if return_index:
+                # The vectors in v were found at the sorted indices
+                idx = np.sort(idx)[idx_sym]
 
         m = self.__class__(xyz=v.data, phase=self.phase)
         m.coordinate_format = self.coordinate_format
